@@ -62,6 +62,48 @@ fn t(out: &mut String, name: &str, f: impl FnOnce() -> String) {
     }
 }
 
+
+/// every binary operation with an integer operand of type $t on either side
+macro_rules! int_ops {
+    ($out:expr, $x:expr, $i:expr, $n:expr, $t:ty, $tn:literal) => {{
+        let x: Decimal = $x;
+        let i: $t = $i;
+        let n: u8 = $n;
+        d($out, concat!("add_", $tn), || x + i);
+        d($out, concat!($tn, "_add"), || i + x);
+        d($out, concat!("sub_", $tn), || x - i);
+        d($out, concat!($tn, "_sub"), || i - x);
+        d($out, concat!("mul_", $tn), || x * i);
+        d($out, concat!($tn, "_mul"), || i * x);
+        d($out, concat!("div_", $tn), || x / i);
+        d($out, concat!($tn, "_div"), || i / x);
+        d($out, concat!("rem_", $tn), || x % i);
+        d($out, concat!($tn, "_rem"), || i % x);
+        o($out, concat!("cadd_", $tn), || x.checked_add(i));
+        o($out, concat!($tn, "_cadd"), || CheckedAdd::checked_add(i, x));
+        o($out, concat!("csub_", $tn), || x.checked_sub(i));
+        o($out, concat!($tn, "_csub"), || CheckedSub::checked_sub(i, x));
+        o($out, concat!("cmul_", $tn), || x.checked_mul(i));
+        o($out, concat!($tn, "_cmul"), || CheckedMul::checked_mul(i, x));
+        o($out, concat!("cdiv_", $tn), || x.checked_div(i));
+        o($out, concat!($tn, "_cdiv"), || CheckedDiv::checked_div(i, x));
+        o($out, concat!("crem_", $tn), || x.checked_rem(i));
+        o($out, concat!($tn, "_crem"), || CheckedRem::checked_rem(i, x));
+        d($out, concat!("divr_", $tn), || x.div_rounded(i, n.min(18)));
+        d($out, concat!($tn, "_divr"), || i.div_rounded(x, n.min(18)));
+        d($out, concat!("quant_", $tn), || x.quantize(i));
+        d($out, concat!($tn, "_quant"), || i.quantize(x));
+        d($out, concat!("ref_", $tn), || &x - &i);
+        d($out, concat!("assign_", $tn), || {
+            let mut t = x;
+            t += i;
+            t *= i;
+            t
+        });
+        t($out, concat!("cmp_", $tn), || format!("{} {} {:?} {:?}", x == i, i < x, x.partial_cmp(&i), i.partial_cmp(&x)));
+    }};
+}
+
 fn main() {
     std::panic::set_hook(Box::new(|_| {}));
     let stdin = std::io::stdin();
@@ -95,7 +137,7 @@ fn main() {
         let u8v = i.clamp(0, 255) as u8;
         let nu = n.clamp(0, 255) as u8;
         let ni = n.clamp(-128, 127) as i8;
-        let mut out = String::with_capacity(2048);
+        let mut out = String::with_capacity(16384);
         d(&mut out, "add", || x + y);
         d(&mut out, "sub", || x - y);
         d(&mut out, "mul", || x * y);
@@ -128,6 +170,17 @@ fn main() {
         d(&mut out, "divr_i64", || x.div_rounded(i64v, nu));
         d(&mut out, "i32_divr_i32", || i32v.div_rounded(i32v.wrapping_add(7) | 1, nu.min(18)));
         d(&mut out, "quant_i32", || x.quantize(i32v));
+        // all integer types, both positions
+        let clampi = |lo: i128, hi: i128| i.clamp(lo, hi);
+        int_ops!(&mut out, x, clampi(0, u8::MAX as i128) as u8, nu, u8, "u8");
+        int_ops!(&mut out, x, clampi(i8::MIN as i128, i8::MAX as i128) as i8, nu, i8, "i8");
+        int_ops!(&mut out, x, clampi(0, u16::MAX as i128) as u16, nu, u16, "u16");
+        int_ops!(&mut out, x, clampi(i16::MIN as i128, i16::MAX as i128) as i16, nu, i16, "i16");
+        int_ops!(&mut out, x, clampi(0, u32::MAX as i128) as u32, nu, u32, "u32");
+        int_ops!(&mut out, x, clampi(i32::MIN as i128, i32::MAX as i128) as i32, nu, i32, "i32");
+        int_ops!(&mut out, x, clampi(0, u64::MAX as i128) as u64, nu, u64, "u64");
+        int_ops!(&mut out, x, clampi(i64::MIN as i128, i64::MAX as i128) as i64, nu, i64, "i64");
+        int_ops!(&mut out, x, clampi(-i128::MAX, i128::MAX), nu, i128, "i128");
         // compound assignment
         d(&mut out, "add_assign", || {
             let mut t = x;
